@@ -163,9 +163,13 @@ NeedParens(parent, child, side) ==
 \* the edges of a tree at which the intended design needs a bracket: the only
 \* places where an un-bracketed rendering can regroup (used as the signature
 \* alternatives of a failing tree)
-RECURSIVE NeedEdges(_)
-NeedEdges(t) == UNION { (IF NeedParens(t, kd[2], kd[1]) THEN {<<OpOf(t), OpOf(kd[2]), kd[1]>>} ELSE {})
-                        \cup NeedEdges(kd[2]) : kd \in Kids(t) }
+\* An edge is named with the operator ABOVE its parent ("" at the root): what a renderer does at an edge may depend on what
+\* encloses it (the sub-criterion request of an enclosing NOT, for one), so a failure inside NOT is not the same finding as a
+\* failure of the same parent / child pair elsewhere.
+RECURSIVE NeedEdgesIn(_, _)
+NeedEdgesIn(t, up) == UNION { (IF NeedParens(t, kd[2], kd[1]) THEN {<<OpOf(t), OpOf(kd[2]), kd[1], up>>} ELSE {})
+                              \cup NeedEdgesIn(kd[2], OpOf(t)) : kd \in Kids(t) }
+NeedEdges(t) == NeedEdgesIn(t, "")
 
 RECURSIVE Render(_), RenderKid(_, _, _), RenderList(_, _)
 
